@@ -61,6 +61,7 @@ type Ctx struct {
 	Obs      []Obligation
 	Counters map[string]int
 	Samples  []interface{}
+	Seq      map[string]int // per-construct ordinals of obligations (rules.seqKey)
 }
 
 func (c *Ctx) add(v Verdict, key string, pos token.Pos, detail string, path []string) {
